@@ -1,6 +1,7 @@
 package props
 
 import (
+	"sync/atomic"
 	"crypto/sha1"
 	"encoding/hex"
 	"fmt"
@@ -25,6 +26,12 @@ func c10Cases(c *core.Ctx) []VCase {
 		nSchemas, per = 600, 40
 	}
 	cases := GenValidationCases(c, nSchemas, per, nil)
+	// documents whose fragments reuse response keys and spread one another, one in four with cycles
+	nStress := 1500
+	if !c.Quick {
+		nStress = 20000
+	}
+	cases = append(cases, OverlapStress(c.Rng, nStress)...)
 	// equidistant suggestion candidates: type names Aab, Aac, Aad, ...; field names likewise
 	sdl := "type Query { aab: Int aac: Int aad: Int x(e: Eq): Int t: Aab } type Aab { a: Int } type Aac { a: Int } type Aad { a: Int } type Abb { a: Int } enum Eq { QA QB QC QD }"
 	for _, q := range []string{
@@ -38,10 +45,35 @@ func c10Cases(c *core.Ctx) []VCase {
 
 // digest of everything observable about validating one pair: fresh parse twice and the same
 // tree validated again (messages, order, locations, rule names)
+// withoutRule drops the errors of one rule from a list of full error lines (rule name first)
+func withoutRule(r string, rule string) string {
+	var keep []string
+	for _, l := range strings.Split(r, "\n") {
+		if !strings.HasPrefix(l, rule+" ") && !strings.HasPrefix(l, rule+"|") && !strings.Contains(l, "rule="+rule) {
+			keep = append(keep, l)
+		}
+	}
+	return strings.Join(keep, "\n")
+}
+
+// d2Applies: recorded finding F-D2 — in a document with a fragment cycle the errors of
+// OverlappingFieldsCanBeMerged depend on which fields the walk has annotated so far, so the same
+// document object validated again can report more of them. Nothing else may differ.
+func d2Applies(first, again string) bool {
+	return strings.Contains(first, "NoFragmentCycles") &&
+		withoutRule(first, "OverlappingFieldsCanBeMerged") == withoutRule(again, "OverlappingFieldsCanBeMerged")
+}
+
 func c10Digest(k VCase) (string, string) {
+	d, diff, _ := c10DigestD2(k, false)
+	return d, diff
+}
+
+// allowD2: F-D2 is recorded; the third result (bool) says that it was used
+func c10DigestD2(k VCase, allowD2 bool) (string, string, bool) {
 	s, err := loadImpl(k.Srcs...)
 	if err != nil {
-		return "schema-err:" + err.Error(), ""
+		return "schema-err:" + err.Error(), "", false
 	}
 	var runs []string
 	parseAndValidate := func() (*ast.QueryDocument, string) {
@@ -57,12 +89,17 @@ func c10Digest(k VCase) (string, string) {
 	if d1 != nil {
 		runs = append(runs, strings.Join(fullErrors(validator.Validate(s, d1)), "\n")) // the validated tree again
 	}
-	for _, r := range runs[1:] {
+	used := false
+	for i, r := range runs[1:] {
 		if r != runs[0] {
-			return runs[0], "first: " + runs[0] + "\nlater: " + r
+			if allowD2 && i == 1 && d2Applies(runs[0], r) {
+				used = true
+				continue
+			}
+			return runs[0], "first: " + runs[0] + "\nlater: " + r, used
 		}
 	}
-	return runs[0], ""
+	return runs[0], "", used
 }
 
 // EmitC10 is the child-process mode: one digest line per case.
@@ -82,10 +119,37 @@ func runC10(c *core.Ctx) {
 	if !c.Quick {
 		nProc = 30
 	}
+	// F-D2 (no model flag: the model has both behaviours, validate and validate_again): replay the witness
+	d2 := false
+	for _, f := range c.Known {
+		if f.ID == "F-D2" && f.Status == "known" && len(f.Args) == 2 {
+			q, _ := hex.DecodeString(f.Args[0])
+			sdl, _ := hex.DecodeString(f.Args[1])
+			_, diff, used := c10DigestD2(VCase{Srcs: []string{string(sdl)}, Query: string(q)}, true)
+			if used && diff == "" {
+				d2 = true
+				line := fmt.Sprintf("KNOWN-FINDING: property=%s %s: %s", c.Prop, f.ID, f.What)
+				fmt.Println(line)
+				c.KnownLines = append(c.KnownLines, line)
+			} else {
+				c.Note("known finding F-D2 no longer reproduces on its witness")
+			}
+		}
+	}
 	digests := make([]string, len(cases))
+	var d2Used int64
 	c.Pool.ParFor(len(cases), func(w, i int) {
 		k := cases[i]
-		d, diff := c10Digest(k)
+		d, diff, used := c10DigestD2(k, d2)
+		if used {
+			atomic.AddInt64(&d2Used, 1)
+		}
+		// the same document object validated again, against the model's validate_again
+		args2 := valArgs("~*", k)
+		impl2 := c.Impl(w, "val", args2...)
+		if v2, cur2, none2 := c.Tie(w, "val", impl2, args2...); v2 == core.Violation {
+			c.Report(w, "val", thm, args2, impl2, cur2, none2)
+		}
 		h := sha1.Sum([]byte(d))
 		digests[i] = hex.EncodeToString(h[:8])
 		if diff != "" {
@@ -126,5 +190,6 @@ func runC10(c *core.Ctx) {
 	c.Programs = int64(len(cases))
 	c.Count("pairs", int64(len(cases)))
 	c.Count("fresh_processes", int64(nProc))
+	c.Count("revalidation_differences_explained_by_F-D2", d2Used)
 	c.Sample(map[string]interface{}{"query": cases[len(cases)-1].Query, "schema": cases[len(cases)-1].Srcs[0]})
 }
